@@ -261,9 +261,59 @@ func (r *R) Gen(ctx ctxT, g *hx.Rng) string {
 		if g.Chance(1, 6) {
 			sender = pick(g, "A1", "A0", "A2")
 		}
-		return fmt.Sprintf("params update module=%s sender=%s %s", mod, sender, genFields(g, mod))
+		fields := genFields(g, mod)
+		if g.Chance(1, 5) {
+			fields = r.derived(ctx, g, mod) // a variation of what is stored now
+		}
+		direct := ""
+		if g.Chance(1, 4) {
+			direct = " direct=1"
+		}
+		return fmt.Sprintf("params update module=%s sender=%s %s%s", mod, sender, fields, direct)
 	case 2:
 		return fmt.Sprintf("params genesis module=%s %s", mod, genFields(g, mod))
 	}
 	return fmt.Sprintf("params battery module=%s", mod)
+}
+
+// derived draws an update that is a small variation of the CURRENTLY STORED set: validation
+// that looks only at what changed (or only at each entry on its own) passes such sets although
+// the whole set is invalid. htlc: the stored asset list with a stored entry appended again
+// (verbatim, or same denom with another limit), or with one entry replaced; other modules: the
+// stored set with one field taken from a fresh — possibly invalid — draw.
+func (r *R) derived(ctx ctxT, g *hx.Rng, mod string) string {
+	cur := r.stored(ctx, mod)
+	if mod == "htlc" {
+		if cur == "assets=-" {
+			return genFields(g, mod)
+		}
+		as := strings.Split(strings.TrimPrefix(cur, "assets="), ";")
+		one := as[g.Intn(len(as))]
+		switch g.Intn(3) {
+		case 0:
+			as = append(as, one)
+		case 1:
+			f := strings.Split(one, ",")
+			if len(f) > 1 {
+				f[1] = "1000000007"
+			}
+			as = append(as, strings.Join(f, ","))
+		default:
+			as[g.Intn(len(as))] = genAsset(g, g.Intn(2), g.Chance(1, 2), g.Intn(8))
+		}
+		return "assets=" + strings.Join(as, ";")
+	}
+	curF := strings.Fields(cur)
+	fresh := strings.Fields(genFields(g, mod))
+	if len(curF) == 0 || len(fresh) == 0 {
+		return genFields(g, mod)
+	}
+	over := fresh[g.Intn(len(fresh))]
+	key := over[:strings.Index(over, "=")+1]
+	for i, kv := range curF {
+		if strings.HasPrefix(kv, key) {
+			curF[i] = over
+		}
+	}
+	return strings.Join(curF, " ")
 }
